@@ -198,6 +198,25 @@ func famExtremal(size int, r *rng, f func([]byte, Event)) {
 	}
 }
 
+// (i) mixed: entropies of all sizes and languages in random order (size and language change from call to call,
+// larger before smaller as often as the reverse)
+func runMixed(seed int64, count int, check bool) {
+	r := newRng(seed, "mixed")
+	for k := 0; k < count; k++ {
+		maybeCut()
+		size := sizes[r.intn(5)]
+		lang := int64(r.intn(10))
+		ent := r.bytes(size)
+		if r.intn(8) == 0 {
+			ent[0] = 0
+		}
+		out, err := recByEntropy(ent, lang, Event{"fam": "mixed", "k": k})
+		if check && err == nil {
+			recCheck(out, lang, Event{"fam": "mixed", "gen": true})
+		}
+	}
+}
+
 func famRandom(count int) func(int, *rng, func([]byte, Event)) {
 	return func(size int, r *rng, f func([]byte, Event)) {
 		for k := 0; k < count; k++ {
